@@ -4,6 +4,7 @@ package main
 // Typestate argument over all sequential call histories (DESIGN.md §4 C19).
 
 import (
+	"strings"
 	"fmt"
 	"go/ast"
 	"go/token"
@@ -101,6 +102,7 @@ func checkC19(w *World, r *Report) {
 	r.Rule("R19.2", "only the wrapper's own Close stores its flag", 5)
 	r.Rule("R19.3", "every other closer type in package streams promotes Close/Closed from an embedded field filled by a NewSafe* constructor in every literal", 7)
 	r.Rule("R19.4", "reader+writer pair closes both halves on all paths; Closed is the conjunction", 2)
+	r.Rule("R19.6", "the wrapped resource is closed by the wrapper's own Close and by no other method", 5)
 	r.Rule("R19.5", "TryClose/LogClose consult Closed() before Close()", 2)
 
 	safes := findSafeTypes(w)
@@ -112,6 +114,7 @@ func checkC19(w *World, r *Report) {
 		c19Close(w, r, s)
 		c19Closed(w, r, s)
 		c19Writers(w, r, s)
+		c19OnlyCloseClosesInner(w, r, s)
 	}
 	c19Wrappers(w, r, safeSet)
 	c19Helpers(w, r)
@@ -968,4 +971,51 @@ func ruleClosedFlagOnlyByClose(w *World, r *Report, rule string) {
 	for _, st := range sts {
 		c19WritersRule(w, r, rule, st)
 	}
+}
+
+// c19OnlyCloseClosesInner: R19.6 — the inner resource of a flag-carrying wrapper is closed by the wrapper's own
+// Close and by nothing else. A data-path method that closes it "to be safe" after a failed copy leaves the
+// flag down: the owner's Close closes the resource a second time and reports its "already closed" error.
+func c19OnlyCloseClosesInner(w *World, r *Report, s safeType) {
+	key := "type:" + qualName(s.T) + "|inner-closers"
+	var bad []string
+	n := 0
+	ms := types.NewMethodSet(types.NewPointer(s.T))
+	for i := 0; i < ms.Len(); i++ {
+		m, ok := ms.At(i).Obj().(*types.Func)
+		if !ok || m == s.Close {
+			continue
+		}
+		if rn := recvNamed(m); rn == nil || rn != s.T {
+			continue // promoted from the embedded resource
+		}
+		fn := w.SSAFunc(m)
+		if fn == nil || len(fn.Blocks) == 0 {
+			continue
+		}
+		n++
+		for _, g := range staticCone(fn, 1) {
+			recvOf := fn
+			if g != fn {
+				continue // helpers are judged where they take the inner resource as an argument: at the call below
+			}
+			isInner := func(v ssa.Value) bool { return recvFieldLoad(recvOf, v, s.Flag) }
+			for _, c := range callsIn(g) {
+				if isCloseOn(w, c, isInner) {
+					bad = append(bad, fmt.Sprintf("%s: %s closes the wrapped resource outside Close(): the closed flag stays down, so the owner's Close closes the resource again (and reports its error) and Closed() answers false for a resource that is closed", w.Pos(c.Pos()), ssaFuncKey(g)))
+					continue
+				}
+				// a module helper that closes one of its parameters, handed the inner resource
+				if sc := c.Common().StaticCallee(); sc != nil && inModule(sc) && sCallee(c) != w.Func("internal/streams", "LogClose") && sCallee(c) != w.Func("internal/streams", "TryClose") {
+					for _, idx := range closesParamIndexes(w, sc) {
+						if idx < len(c.Common().Args) && isInner(c.Common().Args[idx]) {
+							bad = append(bad, fmt.Sprintf("%s: %s hands the wrapped resource to %s, which closes it, outside Close()", w.Pos(c.Pos()), ssaFuncKey(g), ssaFuncKey(sc)))
+						}
+					}
+				}
+			}
+		}
+	}
+	sort.Strings(bad)
+	r.Check(len(bad) == 0, "R19.6", key, w.Pos(s.T.Obj().Pos()), fmt.Sprintf("%d other method(s) of the wrapper, none closes the wrapped resource", n), strings.Join(bad, "; "))
 }
